@@ -772,6 +772,8 @@ def c14(acc):
     de_replay(acc, ps, "soup", "B:token soups: from_str vs from_reader (piece sizes 1,2,3,7)", extra=["--sizes", "1,2,3,7"])
     _, pr = mc_de(acc, "rewrite", 1, ["F02", "F07", "F16"] if q else RT_TYPES, "MC_De-c14rw")
     de_replay(acc, pr, "rewrite", "B:rewritten family documents: from_str vs from_reader (piece sizes 1,2,3,7)", extra=["--sizes", "1,2,3,7"])
+    _, prs = mc_de(acc, "rewriteS", 2, ["-"], "MC_De-c14rwS")
+    de_replay(acc, prs, "rewrite", "B:rewritten documents of generated types: from_str vs from_reader (piece sizes 1,3)", extra=["--sizes", "1,3"])
     # a SPACE OF TYPES: every struct assembled from the catalogue of field shapes (MC_Schema), executed by the schema-driven serde client
     _, psch = mc_schema(acc, 2, "MC_Schema-c14")
     serde_replay(acc, psch, "c14", "B:generated types: from_str vs from_reader under chunkings and presentations")
@@ -848,6 +850,9 @@ def c15(acc):
     de_replay(acc, p, "rewrite", "B:rewritten documents deserialize to the original value", extra=["--sizes", ""])
     # the deserializer's other build variant (feature overlapped-lists off) skips unknown subtrees with different code
     de_replay(acc, p, "rewrite", "B:the same with a quick-xml built without overlapped-lists", extra=["--sizes", ""], flavour="nool")
+    # the same rewrites over GENERATED types (SchemaGen: every struct of <= 1 [2] fields on the round-trippable domain x 4 values)
+    _, psr = mc_de(acc, "rewriteS", 2 if q else 3, ["-"], "MC_De-rewriteS", timeout=3400)
+    de_replay(acc, psr, "rewrite", "B:rewritten documents of generated types deserialize to the generated value", extra=["--sizes", "3"])
     # ... and with the encoding feature (every text piece / CDATA / attribute value is decoded separately)
     de_replay(acc, p, "rewrite", "B:the same with a quick-xml built with the encoding feature", extra=["--sizes", ""], flavour=True)
     return acc.finish()
